@@ -30,13 +30,17 @@ CLAIMS = {
   note="A1, A2, A3 (slices <= isize::MAX), A5 allocator, A7 derived impls; streaming-parser object invariant inferred per countdown class",
   ref="DESIGN.md §4 C06"),
  "C02": dict(
-  technique="path-sensitive value-range analysis: validation-gate facts at the Done assignment, ghost CRC-feed counter",
+  technique="path-sensitive value-range analysis: validation-gate facts at the Done assignment, ghost CRC-feed counter, per-step push discipline (written ++ withheld zeros = withheld zeros ++ logical emission)",
   text="Validation-gate clause (a necessary condition of decoder soundness, not the whole behaviour): on every abstract path of push_byte, "
        "from every state of the inferred object invariant, the instant the Done state is written the path facts must entail: checksum read "
        "from payload[2..4] (little endian) equals the value finalised from the decoder's own digest; raw_msg_len % 4 == 0; pad <= 3; "
        "pad <= withheld zeros; payload[0] == 0x1a at step 3; none of these rests on an overflow check that fails statically. A ghost counter "
        "proves every frame byte is fed to the digest exactly once and the compare excludes exactly the 2 checksum bytes; Ok(true)/Done "
-       "arise only through the gate. Not decided: that the buffer content equals the canonical payload (escape / zero-withholding reconstruction).",
+       "arise only through the gate. Push discipline: for every step of the decoder (data byte, escape run, aborted run, literal escape, realigned end, "
+       "end, frame start) the bytes handed to the buffer followed by the zeros still withheld equal the zeros withheld before followed by the "
+       "step's logical emission as run-length sequences with symbolic counts; the literal / restart / end / realign branches are taken only for "
+       "their escape payloads; a frame start leaves an empty buffer. Not decided: the induction over a whole frame that turns the per-step "
+       "equations into 'buffer = payload' (C01).",
   note="A1, A2 (crc summaries: finalize result is an uninterpreted value); facts are stated over values, not over source text",
   ref="DESIGN.md §4 C02"),
  "C08": dict(
@@ -94,26 +98,30 @@ CLAIMS = {
        "contract 'error, or value plus suffix of the input'; the success path's ordered parsed types, slice chaining and the binding of parsed "
        "values to result fields must equal a table transcribed from the SML specification (field order, types, optionality, arity, tag "
        "tables, the vendor time workaround); check_tlf acceptance sets are computed from the real bodies and compared as sets; Value/Status "
-       "try candidates narrowest first and parse with the type they checked; Option<T> is None exactly for 0x01; the list loop runs the "
-       "declared count. Not decided: exactness of integer / byte-string values (C12).",
+       "dispatch is decided for every (type, length) class with the real check_tlf bodies: parsed by the narrowest specified type whose "
+       "acceptance box contains the class, bound into that type's variant, everything else TlfMismatch; Option<T> is None exactly for 0x01; "
+       "the value list parses and pushes exactly tlf.len entries, each from the rest of the previous one (ghost counters in the abstract "
+       "memory, any loop shape). Plus the value rules of C12.",
   note="A1, A2, A7; the callee contract is re-checked on the real bodies by R-C04-SUFFIX",
   ref="DESIGN.md §4 C03"),
  "C04": dict(
   technique="guard-before-use path rule, CRC/end-marker gates with byte ranges as linear facts, suffix contract via function summaries",
-  text="Structural soundness clauses: every parse_with_tlf call (16 sites) is preceded on its path by a true check_tlf of the same type and "
-       "TLF; both message parsers return data only on paths that establish parsed_crc == swap_bytes(checksum(bytes)) with bytes = [message "
+  text="Structural soundness clauses: every parse_with_tlf call (16 sites) is reached only on paths where check_tlf of the same type and TLF returned true, or "
+       "whose path condition entails the type's real check_tlf body; both message parsers return data only on paths that establish parsed_crc == swap_bytes(checksum(bytes)) with bytes = [message "
        "start, checksum field start) proved as linear facts over slice offsets, after the end marker parser (which accepts exactly 0x00); "
        "leftover input is rejected; envelope must be List(6); every parser function returns a suffix of its input (proved from its summary). "
        "Not decided: equality with an independent reading of the grammar beyond the shape table of C03.",
   note="A1, A2 (checksum is an uninterpreted function of the byte range), A7",
   ref="DESIGN.md §4 C04"),
  "C07": dict(
-  technique="path-sensitive analysis with a fallible abstract buffer, dominance rules, constant extraction, state-table extraction",
+  technique="path-sensitive analysis with a fallible abstract buffer and specification-side ghost counters in the abstract memory, dominance rules, congruence reasoning mod 4, state-table extraction",
   text="Structural clauses: encode() returns Err exactly on paths where a buffer write failed (no dropped result) and every write dominates the "
        "Ok return / lies on every loop cycle (with C18 this is 'out-of-memory exactly when the frame does not fit'); constants written by both "
-       "encoders equal the Transport v1 constants, the escape follows the 4th consecutive 1b, CRC is CRC_16_IBM_SDLC little endian over all "
-       "preceding bytes; pad is (4 - len % 4) % 4 in 0..3, equals the zero count and follows 0x1a; the iterator encoder's transition table "
-       "is extracted from next() for every state value; after the last byte next() returns None without touching state, CRC or inner "
+       "encoders equal the Transport v1 constants; a ghost counter of consecutive 1b bytes written is exactly 4 at every inserted escape and in "
+       "0..3 whenever the next payload byte is fetched, and every fetched byte is written exactly once; the last three writes are pad zeros, "
+       "1b1b1b1b1a+pad and to_le_bytes of CRC_X25.checksum over the whole buffer, with pad in 0..3 and (length + pad) = 0 mod 4 decided from the "
+       "definitions of % / & / wrapping operations; the iterator encoder's transition table is extracted from next() for every state value, its "
+       "pad count (the byte emitted in End(5)) is 0 after new, drops by one mod 4 per data byte and equals the zeros fed at end of data; after the last byte next() returns None without touching state, CRC or inner "
        "iterator. Not decided: byte-for-byte equality of the two encoders and conformance of the emitted frame for all payloads.",
   note="A1, A2, A4, A6",
   ref="DESIGN.md §4 C07"),
@@ -147,15 +155,16 @@ CLAIMS = {
  "C12": dict(
   technique="value-range analysis of the primitive decoders: lossy-operation detection by operand ranges, dead-error rule, exhaustive byte tables by constant propagation",
   text="TLF lengths: every arithmetic step is value-exact or fails into an error (a truncating shift, wrap or narrowing cast whose operand "
-       "range does not provably fit is reported), each continuation byte updates the length to 16*previous+nibble, every TlfParseError "
-       "variant that exists is reachable (a check that can never fail is a contradiction), the own-size subtraction is one checked "
-       "subtraction for non-list types whose subtrahend equals the consumed TLF bytes; type table and byte decomposition are compared over "
+       "range does not provably fit is reported), on every successful path the returned length equals the base-16 number of the low nibbles of all "
+       "consumed bytes (specification-side ghost accumulator related to the parser's own variables by the loop invariant) minus the consumed "
+       "byte count unless the type is a list, every TlfParseError variant that exists is reachable (a check that can never fail is a "
+       "contradiction); type table and byte decomposition are compared over "
        "all 256 byte values; integers: exactly len bytes taken, right-aligned copy to [SIZE-len,SIZE), fill 0xff iff signed and first byte "
        ">= 0x80, from_be_bytes of the same type; bool = byte != 0; octet string = take_n(len); take_* return exactly prefix and rest.",
   note="A1, A2, A3; integer exactness is decided through the three structural facts, not by evaluating numbers",
   ref="DESIGN.md §4 C12"),
  "C15": dict(
-  technique="faithful-driver rules: value-identity facts on abstract paths of the three driving loops plus CFG must-pass-through rules",
+  technique="faithful-driver rules: protocol monitor over ghost state (reader), value-identity facts on abstract paths (iterator, decode) plus CFG must-pass-through rules",
   text="decode, DecodeIterator::next and DecoderReader::read are analysed with the push decoder and the source as opaque components: every "
        "source byte is pushed unmodified exactly once, Err and Ok(true) are forwarded unmodified (whole buffer), an Err can never reach the "
        "next iteration unreported, end of input calls finalize / reset exactly once and forwards its report, the iterator is terminal "
